@@ -965,7 +965,7 @@ func rulePoolOwner(p *Program, r *Reporter) {
 
 func init() {
 	register(&Rule{ID: "R-REFLECTKIND", Floor: 8, Run: ruleReflectKind,
-		Text: "In the conversion of host values, every reflect.Value accessor that panics on the wrong kind (Elem, Int, Uint, Float, Bool, MapKeys, MapIndex, Len, Index) is reached only on paths on which the value's Kind() has been compared with a kind the accessor accepts — in the function itself or at every call site that passes the value in — and Interface() only where CanInterface() held or the value is a map key. One field the engine cannot handle then yields null for that field instead of failing the lookup of every other field of the object."})
+		Text: "In the conversion of host values, every reflect.Value accessor that panics on the wrong kind (Elem, Int, Uint, Float, Bool, MapKeys, MapIndex, Len, Index) is reached only on paths on which the value's Kind() has been compared with a kind the accessor accepts — in the function itself or at every call site that passes the value in — and Interface() only where CanInterface() held or the value was obtained from reflect.ValueOf without passing through a struct field (a member of a slice or map read from an unexported field inherits the restriction); a converted member is asserted to a more specific type only with the comma-ok form. One field the engine cannot handle then yields null for that field instead of failing the lookup of every other field of the object."})
 }
 
 var reflectNeeds = map[string][]string{
